@@ -327,6 +327,8 @@ impl ImplState {
                 _ => "bad-op".into(),
             },
             "eng.judge1" if t.len() == 2 => "ok".into(),
+            // eng.keys <837 keys>: the keys the engine's current searcher actually uses (after ucinewgame), for the model
+            "eng.keys" if t.len() == 838 => "ok".into(),
             "eng.isdraw" if t.len() == 2 => match parse_board(t[1]) {
                 Some(b) => self.uci.verif_searcher().verif_is_repetition_draw(&b).to_string(),
                 None => "bad-op".into(),
